@@ -43,32 +43,56 @@ import urlgen
 ID = "C04"
 LEAN_MODULE = "UralModel.Props.C04"
 P = "Ural.Props.C04."
-THEOREMS_PLANNED = [P + n for n in [
+THEOREMS = [P + n for n in [
     "norm_scheme_irrelevant",
     "norm_userinfo_irrelevant",
     "norm_default_port",
     "norm_host_case",
     "norm_irrelevant_label",
-    "norm_amp_dash",
+    "documented_labels",
+    "norm_irrelevant_label_front",
+    "norm_amp_dash_partial",
+    "fullAmpDash_fails",
     "norm_trailing_slash",
     "norm_index",
     "norm_fragment_nonrouting",
     "norm_tracking_item_any_position",
+    "norm_tracking_item_raw",
+    "norm_tracking_item_first",
+    "norm_tracking_item_alone",
     "norm_query_permutation",
+    "sort_filter_perm",
     "norm_amp_semicolon_partial",
+    "fullAmpSemicolon_fails",
     "norm_escape_spelling",
-    "norm_surrounding_ws",
+    "escape_of_unreserved",
+    "unquote_idempotent",
+    "norm_hex_case",
     "norm_redirect_prestep",
+    "norm_clean_congr",
+    "preClean_surrounding",
+    "norm_surrounding_ws",
+    "norm_surrounding_ws_redirect_partial",
+]] + ["Ural.Normalize." + n for n in [
+    "sortQsl_eq_of_perm",
+    "qslLe_antisymm",
+    "qslLe_trans",
+    "qslLe_total",
+    "fixMistakes_join",
+    "outQuery_eq",
+    "subdomainSub_join",
+    "ampSub_append_segment",
+    "domainFilter_front",
 ]]
-TABLE_OBLIGATIONS_PLANNED = [P + n for n in [
+TABLE_OBLIGATIONS = [P + n for n in [
     "tracking_core_stripped",
     "tracking_core_amp",
     "ref_values_core",
     "plain_keys_kept",
+    "keeps_empty",
+    "perDomain_first_labels",
 ]]
 
-THEOREMS = []
-TABLE_OBLIGATIONS = []
 OPTSETS = [{}, {"quoted": True}, {"platform_aware": True}, {"quoted": True, "platform_aware": True}]
 
 # ---------------------------------------------------------------------------------------
@@ -339,8 +363,23 @@ def apply(p, T):
     return q
 
 
+_VCACHE = {}
+
+
 def variant(case):
     """(base string, variant string) or None when some transformation is not applicable"""
+    k = id(case)
+    hit = _VCACHE.get(k)
+    if hit is not None and hit[0] is case:
+        return hit[1]
+    if len(_VCACHE) > 20000:
+        _VCACHE.clear()
+    v = _variant(case)
+    _VCACHE[k] = (case, v)
+    return v
+
+
+def _variant(case):
     if case["kind"] == "raw":
         return case["u"], case["v"]
     p = case["parts"]
@@ -424,6 +463,8 @@ REDIRECT_BASES = [
     {"host": "l.facebook.com", "segments": ["l.php"], "query": [["u", "http%3A%2F%2Fwww.b.com%2Findex.html%3Futm_source%3Dx"]]},
     {"host": "cdn.ampproject.org", "scheme": "https://", "segments": ["c", "s", "www.b.com", "a", "amp"], "trailing": True},
     {"host": "a.com", "segments": [], "query": [["u", "https://m.b.com/%41"]], "fragment": "/r"},
+    # a redirect inside a redirect (the inference is recursive)
+    {"host": "a.com", "segments": [], "query": [["url", "http%3A%2F%2Fb.com%2F%3Fu%3Dhttp%253A%252F%252Fwww.c.com%252Fx"]]},
 ]
 PLATFORM_BASES = [
     {"host": "facebook.com", "scheme": "https://", "segments": ["permalink.php"], "query": [["story_fbid", "1"], ["id", "2"]]},
@@ -557,7 +598,7 @@ def cases(rng, tier):
             if T:
                 yield _case(p, T, rng.choice(OPTSETS))
     # random bases of the URL grammar
-    n = 1500 if not thorough else 40000
+    n = 1500 if not thorough else 25000
     for _ in range(n):
         p = random_base(rng)
         for t in single_transforms(p, rng, False):
@@ -657,13 +698,52 @@ def classify(case):
     return labs
 
 
-RULE = ""
-EXHAUSTIVE = {}
-TRUSTED = []
-ASSUMPTIONS = []
-UNPROVED = ""
-
-
+RULE = (
+    "A case is a base URL (structured components: scheme, userinfo, host built from irrelevant / look-alike / "
+    "language labels over the base domains, port, segments incl. index / AMP / dot / escaped tails, query items "
+    "incl. tracking look-alikes, fragment) plus a composition of <= 3 transformations of the documented-irrelevant "
+    "family, each with explicit arguments (scheme, userinfo, label in front of the host, leading amp-, explicit "
+    "80/443, host case, trailing slash, trailing index file name, non-routing fragment, tracking item at a given "
+    "position, permutation of the items, '&amp;' / '&amp%3B' separator, another escape spelling, hex case, "
+    "surrounding whitespace / control characters), x {defaults, quoted, platform_aware, both}. Oracle (implementation "
+    "only): normalize_url(T(u)) == normalize_url(u), and normalize_url(w) == normalize_url(infer_redirection(w), "
+    "infer_redirection=False) for both spellings (unless both calls return their argument unchanged: unparseable). "
+    "Both spellings also go through the model-vs-implementation comparison (norm_clean + norm_parts lines). "
+    "Non-trivial = the transformation is applicable and changed the string; distinct = distinct (base, variant, options)."
+)
+EXHAUSTIVE = {
+    "quick": "every transformation with every argument of its list (every tracking item at every position, every permutation of 2-4 items, every separator spelling) alone on each of the ~190 enumerated bases, under the defaults and one rotating non-default option set",
+    "thorough": "the same under all four option sets",
+}
+TRUSTED = [
+    "CPython urlsplit and the SplitResult accessors: the harness ships the Parsed record of the string normalize_url parses; that the real parser maps a string transformation (another scheme, userinfo, label, port, slash, item, separator) to the component transformation the theorems are stated on is covered by the correspondence of both spellings and by the oracle, not proved",
+    "attempt_to_decode_idna (CPython idna codec) is the abstract `puny` (PunyLaws / PunyCase hypotheses, instances proved for the identity decoder; the real codec's answers are shipped per label and compared)",
+    "the platform_aware branch (facebook / youtube rewriting) is an abstract `platform : Str -> Str`; the harness ships the rewritten URL's components",
+    "infer_redirection is the Lean model of C15 (Model/Redirect.lean), compared on every case (`norm_clean` line)",
+    "hand-written scanners for the look-around regexes (IRRELEVANT_SUBDOMAIN(_AMP)_RE, AMP_SUFFIXES_RE, MISTAKES_RE) are tied to the regenerated pattern strings and probe tables by the obligations of Props/C05.lean and to the code by differential execution",
+    "Lean kernel, the driver's JSON glue (Driver/Norm.lean), harness/norm_common.py prepare() (replay of the steps before parsing with ural's own pieces, itself compared with the model)",
+]
+ASSUMPTIONS = [
+    "reading that demands less (DESIGN 6 C04): a label / amp- goes in FRONT of a host name (not an IP literal), amp- only when no label of the host starts with amp- (D19), explicit 80 with http or no scheme and 443 with https, index names only behind a path that does not end in an index / AMP marker, fragments without '/' and not starting with '!' as surely non-routing, '&amp;' not in front of an item that itself starts with 'amp;', permutations only with at most one redirect-hint item, schemes that urllib resolves relative references for (http, https, ftp) or none",
+    "whitespace / control characters at an end of the URL proper are 'surrounding' whatever component generated them: such bases are not used",
+    "an unparseable URL is returned unchanged (C05), so the family does not apply to it; the pre-step clause accepts 'both calls return their argument unchanged'",
+    "model alphabet: no non-ASCII character that str.lower() changes (DESIGN 4); such URLs go through the oracle only",
+]
+UNPROVED = (
+    "All theorems are about the model over all inputs; none is `decide` over samples. PARTIAL: norm_amp_dash_partial "
+    "(hypothesis: what follows amp- does not start with an irrelevant label — fullAmpDash_fails shows amp-www.a.com, "
+    "known finding KF-C04-2 with patch); norm_amp_semicolon_partial (hypothesis: the item after '&amp;' does not itself "
+    "start with 'amp;' — fullAmpSemicolon_fails; outside the family); norm_surrounding_ws is for infer_redirection=False, "
+    "norm_surrounding_ws_redirect_partial needs the inference to commute with the cleaning (false for a relative target "
+    "behind leading whitespace: KF-C04-3 with patch). norm_query_permutation needs 'no item starts with amp;' when the "
+    "repair is on (the repair treats the first item differently). Not proved, explored on every run by oracle + "
+    "correspondence of both spellings: (i) the CPython bridging from string transformations to component "
+    "transformations; (ii) invariance of infer_redirection itself under the family (KF-C04-1 = D29: hints are searched in "
+    "the raw string) — the theorems cover the function after the pre-step (norm_redirect_prestep is exact); (iii) "
+    "platform_aware=True (abstract `platform`; KF-C04-4 = D53); (iv) non-absolute paths (no authority) for slash / index; "
+    "(v) options: each theorem names the options it needs (strip_trailing_slash for the query and path theorems, lowercase off)."
+)
+LEVEL_NOTE = "proof about the model + differential execution of both spellings + oracle; four known findings (two with patches)"
 # ---------------------------------------------------------------------------------------
 # known findings (KNOWN_FINDINGS.json): predicates recognising exactly their class.
 # A composed case fails only if one of its steps u_i -> T_i(u_i) fails (equality is
